@@ -27,6 +27,12 @@ func c12Ops() []histOp {
 		{"write-object-valued", "P.child = R;", false}, {"write-through-child", "outer.other.k = %f;", false},
 		{"delete-P-x9-after-write", "P.x9 = %f; " + del("P", `"x9"`), false}, {"delete-Q-nil-valued", "Q.nn = nil; " + del("Q", `"nn"`), false},
 		{"delete-via-param", "R.tmp = %f; delvia(R, \"tmp\");", false}, {"delete-computed-key", "P.ab = %f; " + del("P", `"a" + "b"`), false},
+		{"write-read-nfc-unstable-key", "P.ব\u09df\u09b8 = %f; " + Print("P.ব\u09df\u09b8") + " P.ব\u09df\u09b8 = P.ব\u09df\u09b8 + 1; " + Print("P.ব\u09df\u09b8"), false},
+		{"literal-nfc-unstable-keys", "Q = {ব\u09dc: %f, ক\u09c7\u09be: %f, k: %f}; " + Print("Q.ব\u09dc + Q.ক\u09c7\u09be"), false},
+		{"delete-nfc-unstable-key", "R.গ\u09dd = %f; " + del("R", "\"গ\u09dd\""), false},
+		{"replace-key-same-size", "P.ra = %f; T = " + BI("keys", "P") + "; " + del("P", `"ra"`) + " P.rb%n = %f;", false},
+		{"replace-key-same-size-via-alias", "Q.sa = %f; T = " + BI("values", "Q") + "; delvia(Q, \"sa\"); setvia(Q, %f); Q.sb%n = %f;", false},
+		{"swap-two-keys", "R.t1 = %f; R.t2 = %f; T = " + BI("keys", "R") + "; " + del("R", `"t1"`) + " " + del("R", `"t2"`) + " R.u1%n = %f; R.u2%n = %f;", false},
 		{"read-after-write", "P.k = %f; " + Print("P.k"), false}, {"read-nested", "Q.sub2 = {d: %f}; " + Print("Q.sub2.d"), false},
 		// faulting steps
 		{"read-absent", Print("P.absent"), true}, {"read-on-nil", Print("T.k"), true}, {"read-on-array", Print("arr.k"), true}, {"read-on-number", Print("(5).k"), true}, {"read-on-string", Print(`"s".k`), true},
@@ -103,7 +109,7 @@ func c12Run(c *Ctx) {
 func init() {
 	register(&CheckDef{
 		ID:   "C12",
-		Rule: "histories over three object variables with shared ancestry (aliases, an array and an outer object holding them, parameter-writing and parameter-deleting functions) and the key pool {k, ক, x1, মান, ...}: 23 non-faulting step kinds (alias, literals with 0/2/3/6 keys and nested, write new / existing / nil-valued / object-valued property directly, through a parameter, an array element, an outer object; write-then-delete directly, through a parameter, with a computed key, of a nil-valued property; reads) and 14 faulting step kinds (read absent, . on nil/array/number/string, write on non-object, delete absent / twice / non-string key / non-object, listings of non-objects); every history of <=2 steps, every 3rd of <=3 (quick) / all of <=4 (thorough), each also ended by every faulting step; random histories of 4-34 steps. After every step every live object is printed together with its key list and value list, each listing twice in a row; every program is executed 3 times (hash-iteration order is the schedule). Listings may come in any order but all listings of one unmodified object must agree position-wise (keys with values). Compared with refborno's pure map model. Non-trivial = distinct decided history.",
+		Rule: "histories over three object variables with shared ancestry (aliases, an array and an outer object holding them, parameter-writing and parameter-deleting functions) and the key pool {k, ক, x1, মান, ...}: 29 non-faulting step kinds (alias, literals with 0/2/3/6 keys and nested, write new / existing / nil-valued / object-valued property directly, through a parameter, an array element, an outer object; write-then-delete directly, through a parameter, with a computed key, of a nil-valued property; reads) and 14 faulting step kinds (read absent, . on nil/array/number/string, write on non-object, delete absent / twice / non-string key / non-object, listings of non-objects); every history of <=2 steps, every 3rd of <=3 (quick) / all of <=4 (thorough), each also ended by every faulting step; random histories of 4-34 steps. After every step every live object is printed together with its key list and value list, each listing twice in a row; every program is executed 3 times (hash-iteration order is the schedule). Listings may come in any order but all listings of one unmodified object must agree position-wise (keys with values). Compared with refborno's pure map model. Non-trivial = distinct decided history.",
 		Assumptions: []string{"the order of a key/value listing is not pinned, only its consistency; what কি_রিমুভ returns is not pinned"},
 		Run:         c12Run,
 		Judge:       c12Judge,
